@@ -24,8 +24,10 @@ demo=$(ls tests/seeded_${low}*_demo*.rs 2>/dev/null | head -1)
 [ -z "$demo" ] && demo=tests/seeded_${low}_demo.rs
 cp "$OUT/demo.rs" /tmp/demo_$N.rs 2>/dev/null
 git checkout -q -- . ; git clean -fdq -e target
+# confirm against the CURRENT main of /repo (the worktree may have been created from an older commit)
+git checkout -q --detach main
 if ! git apply --check "$OUT/patch.diff" 2>/tmp/apply_$N.err; then res $OUT applies=false; echo "$N: patch does not apply"; exit 1; fi
-res $OUT applies=true
+res $OUT applies=true "zipora_commit=$(git rev-parse --short HEAD)"
 cp /tmp/demo_$N.rs "$demo"
 tname=$(basename "$demo" .rs)
 # demo WITHOUT the patch must pass
